@@ -13,7 +13,9 @@ V: the driver performs the real calls (Agg backend, directory under .work/C20), 
 """
 import math
 import os
+import pathlib
 import shutil
+import struct
 import warnings
 from decimal import Decimal, ROUND_HALF_EVEN
 
@@ -35,6 +37,56 @@ def from_cps(c):
 class StandIn:
     def __init__(self, coords):
         self.coordinates = np.asarray(coords, dtype=float)
+
+
+_REAL = {}
+
+
+def tofloat(co):
+    """contour.coordinates as a float (N, ndim) array, whatever container the class uses"""
+    try:
+        a = np.asarray(co, dtype=float)
+        if a.ndim == 2:
+            return a
+    except (ValueError, TypeError):
+        pass
+    return np.array([[float(np.ravel(v)[0]) for v in row] for row in co], dtype=float)
+
+
+def real_contour(vc, obj, seed):
+    """one real 2-D contour object per class and seed (sea-state model of the test-suite)"""
+    key = (obj, seed)
+    if key in _REAL:
+        return _REAL[key]
+
+    def _power3(x, a=0.1, b=1.489, c=0.1901):
+        return a + b * x ** c
+
+    def _exp3(x, a=0.04, b=0.1748, c=-0.2243):
+        return a + b * np.exp(c * x)
+    with warnings.catch_warnings():
+        warnings.simplefilter("ignore")
+        model = vc.GlobalHierarchicalModel([
+            {"distribution": vc.WeibullDistribution(alpha=2.776, beta=1.471, gamma=0.8888)},
+            {"distribution": vc.LogNormalDistribution(), "conditional_on": 0,
+             "parameters": {"mu": vc.DependenceFunction(_power3), "sigma": vc.DependenceFunction(_exp3)}}])
+        rng = np.random.default_rng([seed, 77])
+        alpha = float(rng.choice([0.01, 0.02, 0.05]))
+        sample = model.draw_sample(int(rng.integers(3000, 6000)), random_state=int(rng.integers(0, 2**31)))
+        if obj == "iform":
+            c = vc.IFORMContour(model, alpha, n_points=int(rng.integers(10, 60)))
+        elif obj == "isorm":
+            c = vc.ISORMContour(model, alpha, n_points=int(rng.integers(10, 60)))
+        elif obj == "hdc":
+            c = vc.HighestDensityContour(model, alpha, limits=[(0, 20), (0, 20)], deltas=[0.5, 0.5])
+        elif obj == "ds":
+            c = vc.DirectSamplingContour(model, alpha, sample=sample, deg_step=int(rng.choice([5, 10, 24])))
+        elif obj == "and":
+            c = vc.AndContour(model, alpha, sample=sample, deg_step=int(rng.choice([5, 10])))
+        else:
+            c = vc.OrContour(model, alpha, sample=sample, deg_step=int(rng.choice([5, 10])))
+    _REAL[key] = c
+    return c
 
 
 def round6(v):
@@ -68,7 +120,12 @@ def save_record(vc, case, workdir):
     from virocon.contours import save_contour_coordinates
     rng = np.random.default_rng([case["seed"], case["idx"]])
     npts, ndim = case["npts"], case["ndim"]
-    coords = np.array(special_values(rng, npts * ndim)).reshape(npts, ndim)
+    if case.get("obj", "standin") == "standin":
+        coords = np.array(special_values(rng, npts * ndim)).reshape(npts, ndim)
+        contour = StandIn(coords)
+    else:
+        contour = real_contour(vc, case["obj"], case["seed"])
+        coords = tofloat(contour.coordinates)
     path = from_cps(case["path"])
     d = workdir / f"s{case['idx']}_{case['seed']}"
     if d.exists():
@@ -88,7 +145,7 @@ def save_record(vc, case, workdir):
     try:
         with warnings.catch_warnings():
             warnings.simplefilter("ignore")
-            save_contour_coordinates(StandIn(coords), str(d / path), sem)
+            save_contour_coordinates(contour, (pathlib.Path(d) / path) if case.get("aspath") else str(d / path), sem)
         new = sorted({str(p.relative_to(d)) for p in d.rglob("*") if p.is_file()} - before)
         rec["nfiles"] = len(new)
         if len(new) == 1:
@@ -145,6 +202,9 @@ def plot_record(vc, case):
         coords = rng.uniform(-20, 20, size=(npts, 2))
     coords = np.round(coords, int(rng.integers(1, 9)))
     contour = StandIn(coords)
+    if case.get("obj", "standin") != "standin":
+        contour = real_contour(vc, case["obj"], case["seed"])
+        coords = tofloat(contour.coordinates)
     sample = rng.normal(5, 3, size=(int(rng.integers(1, 30)), 2)) if case["sample"] else None
     if sample is not None and rng.random() < 0.3:
         sample = sample.tolist()          # array-like
@@ -202,6 +262,12 @@ def plot_record(vc, case):
 # read_ec_benchmark_dataset
 
 
+def bits(v):
+    """the 64 bits of a double as four 16-bit integers (TLC integers are 32 bit)"""
+    b = struct.unpack(">Q", struct.pack(">d", v))[0]
+    return [(b >> 48) & 0xFFFF, (b >> 32) & 0xFFFF, (b >> 16) & 0xFFFF, b & 0xFFFF]
+
+
 def dataset_cases(ctx):
     sizes = ctx.pick([1, 2, 17, 1000], [1, 2, 3, 17, 500, 2000, 10000])
     i = 0
@@ -209,7 +275,8 @@ def dataset_cases(ctx):
         for ncol in (2, 3):
             for order in ("hourly", "gaps", "unordered"):
                 i += 1
-                yield dict(fn="dataset", n=n, ncol=ncol, order=order, idx=i, seed=ctx.seed, reuse=False)
+                yield dict(fn="dataset", n=n, ncol=ncol, order=order, idx=i, seed=ctx.seed, reuse=False,
+                           precision="repr" if i % 2 else "4dec")
     # one path rewritten with different datasets in sequence and read again after every rewrite
     # (what is returned must be what the file holds NOW)
     for n in ctx.pick([3, 3, 40, 2, 40], [3, 3, 40, 2, 40, 1000, 7, 1000]):
@@ -230,7 +297,13 @@ def dataset_record(vc, case, workdir):
         hours = base + np.cumsum(rng.integers(1, 50, n))
     else:
         hours = base + rng.permutation(3 * n)[:n]
-    vals = np.round(rng.uniform(0, 30, size=(n, ncol)), 4)
+    if case.get("precision") == "repr":
+        # full precision (shortest round-trip decimals, 15-17 significant digits), many values < 1
+        vals = np.exp(rng.uniform(-12, 3.4, size=(n, ncol)))
+        fmt = repr
+    else:
+        vals = np.round(rng.uniform(0, 30, size=(n, ncol)), 4)
+        fmt = lambda v: f"{v:.4f}"
     names = ["time (YYYY-MM-DD-HH)", "significant wave height (m)", "zero-up-crossing period (s)", "wind speed (m s-1)"]
     cols = names[:ncol + 1]
     path = workdir / ("ds_reused_path.txt" if case.get("reuse") else f"ds_{case['idx']}.txt")
@@ -239,9 +312,11 @@ def dataset_record(vc, case, workdir):
         fh.write("; ".join(cols) + "\n")
         for h, row in zip(hours, vals):
             t = (epoch + np.timedelta64(int(h), "h")).astype("datetime64[h]").astype(object)
-            fh.write(t.strftime("%Y-%m-%d-%H") + "; " + "; ".join(f"{v:.4f}" for v in row) + "\n")
+            fh.write(t.strftime("%Y-%m-%d-%H") + "; " + "; ".join(fmt(float(v)) for v in row) + "\n")
+    texts = [[fmt(float(v)) for v in row] for row in vals]
     rec = dict(kind="dataset", exc="", wantts=[int(h) for h in hours], wantvals=[[Q(v, 1e4) for v in row] for row in vals],
-               wantcols=[cps(c) for c in cols[1:]], gotlen=0, gotts=[], gotvals=[], gotcols=[])
+               wantbits=[[bits(float(t)) for t in row] for row in texts],      # the double the decimal text denotes
+               wantcols=[cps(c) for c in cols[1:]], gotlen=0, gotts=[], gotvals=[], gotbits=[], gotcols=[])
     try:
         with warnings.catch_warnings():
             warnings.simplefilter("ignore")
@@ -253,6 +328,7 @@ def dataset_record(vc, case, workdir):
         if not exact:
             rec["gotts"] = [-1] * len(rec["gotts"])
         rec["gotvals"] = [[Q(v, 1e4) for v in row] for row in np.asarray(df.values, dtype=float)]
+        rec["gotbits"] = [[bits(float(v)) for v in row] for row in np.asarray(df.values, dtype=float)]
         rec["gotcols"] = [cps(str(c)) for c in df.columns]
     except Exception as e:  # noqa
         rec["exc"] = f"{type(e).__name__}: {e}"[:160]
@@ -435,13 +511,15 @@ def other_plots(vc, ctx, name, model, data, sem):
 
 def key_of(case):
     if case["fn"] == "save":
-        return (f"save npts={case['npts']} ndim={case['ndim']} sem={case['sem']} path={from_cps(case['path'])!r} "
-                f"seed={case['seed']}")
+        return (f"save contour={case.get('obj', 'standin')} npts={case['npts']} ndim={case['ndim']} sem={case['sem']} "
+                f"path={'Path' if case.get('aspath') else 'str'}:{from_cps(case['path'])!r} seed={case['seed']}")
     if case["fn"] == "plot":
-        return (f"plot_2D_contour npts={case['npts']} swap={case['swap']} design_conditions={case['dc']} "
+        return (f"plot_2D_contour contour={case.get('obj', 'standin')} npts={case['npts']} swap={case['swap']} "
+                f"design_conditions={case['dc']} "
                 f"sample={case['sample']} sem={case['sem']} ax={'given' if case['axgiven'] else 'None'} seed={case['seed']}")
     if case["fn"] == "dataset":
-        return (f"read_ec_benchmark_dataset rows={case['n']} cols={case['ncol']} order={case['order']}"
+        return (f"read_ec_benchmark_dataset rows={case['n']} cols={case['ncol']} order={case['order']} "
+                f"digits={case.get('precision', '4dec')}"
                 + (f" path=reused#{case['idx']}" if case.get("reuse") else ""))
     return case["label"]
 
@@ -456,8 +534,9 @@ def selftest_records():
                 sample=[[8, 9]], exc="", lines=[[[2, 1], [4, 3], [0, 5], [2, 1]]], scatters=[[[9, 8]], [[7, 7]]],
                 retdc=True, retarr=[[7, 7]], retax=True,
                 xlabel=cps("Variable 2, $\\it{X_2}$ (arb. unit)"), ylabel=cps("Variable 1, $\\it{X_1}$ (arb. unit)"))
-    ds = dict(kind="dataset", exc="", wantts=[10, 11], wantvals=[[1, 2], [3, 4]], wantcols=[cps("a"), cps("b")], gotlen=2,
-              gotts=[10, 11], gotvals=[[1, 2], [3, 4]], gotcols=[cps("a"), cps("b")])
+    bb = [[[1, 2, 3, 4], [5, 6, 7, 8]], [[1, 2, 3, 4], [5, 6, 7, 9]]]
+    ds = dict(kind="dataset", exc="", wantts=[10, 11], wantvals=[[1, 2], [3, 4]], wantbits=bb, wantcols=[cps("a"), cps("b")],
+              gotlen=2, gotts=[10, 11], gotvals=[[1, 2], [3, 4]], gotbits=bb, gotcols=[cps("a"), cps("b")])
     arr = dict(kind="arrays", clause="X.y", got=[1, 2], want=[1, 2], tol=0, exc="")
     out = []
     k = 0
@@ -492,7 +571,9 @@ def selftest_records():
     put(plot, ["AxisLabels"], xlabel=cps("Variable 1, $\\it{X_1}$ (arb. unit)"))
     put(plot, ["NoException"], exc="ValueError: The truth value of an array")
     put(ds, [])
-    put(ds, ["EveryRow", "TimeStampIndex", "RowsInOrder"], gotlen=1, gotts=[10], gotvals=[[1, 2]])
+    put(ds, ["EveryRow", "TimeStampIndex", "RowsInOrder", "ExactValues"], gotlen=1, gotts=[10], gotvals=[[1, 2]],
+        gotbits=bb[:1])
+    put(ds, ["ExactValues"], gotbits=[bb[0], [[1, 2, 3, 4], [5, 6, 7, 8]]])
     put(ds, ["TimeStampIndex"], gotts=[11, 10])
     put(ds, ["RowsInOrder"], gotvals=[[3, 4], [1, 2]])
     put(ds, ["ColumnNames"], gotcols=[cps(" a"), cps("b")])
